@@ -1042,6 +1042,12 @@ namespace {
          auto& g = lx.get_logogram(S(a(0)));
          L.word(name_logo(g));
          L.check("logogram_spells_its_string", &g.operand() == &S(a(0)));
+         // the same spelling held by a String node of ANOTHER Lexicon names the same logogram here (logograms are told apart by
+         // spelling, not by which String node spells them)
+         static impl::Lexicon guest;
+         auto chars = S(a(0)).characters();
+         const ipr::String& foreign = guest.get_string(chars);
+         L.check("logogram_of_a_foreign_string_is_the_one_of_its_spelling", &lx.get_logogram(foreign) == &g);
       }
       else if (op == "gobs") {
          // Logogram::what() := operand() (interface:108)
